@@ -25,39 +25,3 @@ fn chunk_header_total() {
     }
 }
 
-/// deserialize_chunk on an arbitrary byte string of N bytes whose header says "scheme None"
-/// (the LZ4 frame decoders are third-party and outside the claim): Ok or Err, never a panic; Ok
-/// implies the payload returned is the bytes after the header and the lengths agree.
-fn chunk_total_none<const N: usize>() {
-    let b: [u8; N] = kani::any();
-    kani::assume(N < 5 || b[4] == 0);
-    let r = deserialize_chunk(&mut Cursor::new(&b[..]));
-    match r {
-        Ok((out, consumed, ulen)) => {
-            assert!(consumed <= N && consumed == 8 + out.len() && ulen as usize == out.len(), "C08: accepted chunk is consistent with its header");
-            let k: usize = kani::any();
-            kani::assume(k < out.len());
-            assert!(out[k] == b[8 + k], "C08: payload is the bytes after the header");
-            kani::cover!(out.len() > 0, "c08 chunk: a non-empty chunk accepted");
-            std::mem::forget(out);
-        },
-        Err(e) => {
-            kani::cover!(true, "c08 chunk: rejected");
-            std::mem::forget(e);
-        },
-    }
-}
-#[kani::proof]
-#[kani::stub(alloc::fmt::format, fmt_stub)]
-#[kani::stub(core::fmt::write, fmt_write_stub)]
-#[kani::stub(std::backtrace::Backtrace::capture, bt_stub)]
-fn chunk_total_none_12() {
-    chunk_total_none::<12>();
-}
-#[kani::proof]
-#[kani::stub(alloc::fmt::format, fmt_stub)]
-#[kani::stub(core::fmt::write, fmt_write_stub)]
-#[kani::stub(std::backtrace::Backtrace::capture, bt_stub)]
-fn chunk_total_none_5() {
-    chunk_total_none::<5>();
-}
